@@ -55,6 +55,10 @@ def gen_plan(rng, idx):
             rng, n_frags=rng.randrange(1, 16), kinds=kinds,
             ml=ml and not plain_input, lang=lang, W=W,
             ensure_foreign=rng.random() < 0.8)
+        if enc == 'utf-8' and rng.random() < 0.06:
+            # a file saved as "UTF-8 with BOM": the mark is a character of
+            # the text like any other, positions count it
+            frags.insert(0, docgen.frag('bom', '\ufeff'))
         docs.append(frags)
     argv = ['--lt-command', 'simlt', '--language', lang]
     if rng.random() < 0.3:
